@@ -53,7 +53,7 @@ def distance(bw, metric='euclidean2'):
     if bw.dtype != np.bool_:
         bw = (bw != 0)
     f = np.zeros(bw.shape, np.double)
-    if bw.ndim == 2:
+    if bw.ndim > 0:
         f[bw] = len(f.shape)*max(f.shape)**2+1
         _distance.dt(f, None)
     else:
